@@ -237,7 +237,7 @@ func equals(t types.Type, x, y value) bool {
 	// Since map, func and slice don't support comparison, this
 	// case is only reachable if one of x or y is literally nil
 	// (handled in eqnil) or via interface{} values.
-	panic(fmt.Sprintf("comparing uncomparable type %s", t))
+	panic(targetRuntimeError(fmt.Sprintf("comparing uncomparable type %s", t)))
 }
 
 // Returns an integer hash of x such that equals(x, y) => hash(x) == hash(y).
@@ -300,7 +300,7 @@ func hash(outer, t types.Type, x value) int {
 	case rtype:
 		return x.hash(t)
 	}
-	panic(fmt.Sprintf("unhashable type %v", outer))
+	panic(targetRuntimeError(fmt.Sprintf("hash of unhashable type %v", outer)))
 }
 
 // reflect.Value struct values don't have a fixed shape, since the
